@@ -16,6 +16,7 @@ def run(facts, tier):
         ("raw slot flag", c19_rules.raw_slot_flag, 5, "var_opt: whenever data_ receives fresh raw memory the all-slots-constructed flag is false on return"),
         ("full initialisation", c19_rules.full_init, 9, "occupancy / key / bit arrays are initialised over their whole extent wherever they receive fresh memory (no early exit from the initialising loop)"),
         ("vacuous loops", lambda fa: generic_lints.vacuous_loops(fa, None), 2, "no counted loop whose bound was just reset to its start value (the destroy-the-rest loop after a rebuild must use the saved count)"),
+        ("container allocators", c19_rules.container_allocators, 25, "with every family instantiated with a non-std user allocator (drivers/x_alloc.cpp): no container, string or member container in allocator-parameterised library code uses another allocator type, and every container construction passes an allocator instance or copies/moves a container"),
         ("foreign memory", c19_rules.foreign_memory, 0, "no new/delete/malloc outside the user's allocator (reviewed exception: CPC compressor tables)"),
         ("dangling references", c19_rules.dangling_returns, 50, "no function returns a reference to a local object"),
         ("tautologies", lambda fa: generic_lints.tautologies(fa, None), 2, "no comparison / assignment / min-max with two identical operands, no if-else with identical arms"),
